@@ -40,12 +40,19 @@ TECHNIQUE = ("parallel-effect analysis (mutated-parameter summaries + "
 
 
 def run(ctx):
-    from .c03 import chunk_size_agreement, _dedup_switch
+    from .c03 import (chunk_size_agreement, _dedup_switch,
+                      _chunk_dedup_keeps_best)
     chunk_size_agreement(ctx, "C05a-chunk-size-agreement")
     _parallel_sites(ctx)
     _models_sorted(ctx)
     _empty_subset(ctx)
     _dedup_switch(ctx)
+    _chunk_dedup_keeps_best(ctx)
+    # the NaN scan must take the union over the row chunks (shared with
+    # C10d): anything else depends on how the rows are chunked
+    from .c10 import _nan_scan, PIN
+    _nan_scan(ctx, ctx.prog.func(
+        PIN + "drop_missing_values_and_fill_spectra_dataframe"))
     # the per-chunk de-duplication only removes rows the global competition
     # would remove anyway if that competition is exact (shared with C03b):
     # otherwise the result depends on which duplicates share a chunk
